@@ -62,46 +62,85 @@ def retrieve(thunk):
     return {'tag': 'sig', 'ps': absig.project_params(r)}
 
 
+def outcome_full(thunk, fns):
+    """like retrieve(), with provenance"""
+    from sigtools import signatures
+    try:
+        r = thunk()
+    except signatures.IncompatibleSignatures:
+        return {'tag': 'incompat'}
+    except ValueError:
+        return {'tag': 'valueerror'}
+    except Exception as e:  # noqa
+        return {'tag': 'other', 'exc': type(e).__name__}
+    out = absig.project(r, fns)
+    out['tag'] = 'sig'
+    return out
+
+
+def declared_thunk(w, inner, fl):
+    from sigtools import specifiers
+    return lambda: specifiers.forwards(w, inner, fl['n'], *fl['names'], use_varargs=fl['uva'], use_varkwargs=fl['uvk'],
+                                       hide_args=fl['ha'], hide_kwargs=fl['hk'], partial=fl['partial'])
+
+
 def prog_event(tid, o, i, fl, placement):
     import sigtools
     from sigtools import signatures
     base = placement.replace('_unbound', '')
+    auto = base.startswith('auto')
     src = progs.render_forwarding(o, i, fl, base)
     g, fname = progs.compile_module(src)
+    fns = absig.FnTable()
+    declared = {'tag': 'none'}
+    agree = 'none'
     try:
         unbound = placement.endswith('_unbound')
         inst = None
-        if base in ('function', 'emulate'):
-            fn, codes = g['w'], {g['w'].__code__} if base == 'function' else {g['w'].__wrapped__.__code__}
-            eff_o, plain_target = o, g['w']
+        eff_o = o
+        if base in ('function', 'emulate', 'auto', 'auto_global', 'auto_closure', 'auto_attr', 'auto_attr2', 'auto_deco_noop'):
+            fn = g['w']
+            codes = {fn.__wrapped__.__code__} if base == 'emulate' else {fn.__code__}
+            plain_target = fn
+            if auto:
+                fns.add(fn, 'f1'); fns.add(g['inner'], 'f2')
+                declared, agree = outcome_full(declared_thunk(fn, g['inner'], fl), fns), 'all'
+        elif base == 'auto_wraps':
+            fn, plain_target = g['w'], g['w_orig']
+            codes = {g['w_orig'].__code__}      # the frame holding the forwarding call
+            fns.add(g['w_orig'], 'f1'); fns.add(g['inner'], 'f2')
+            # wrap-only decorator: the expected value is what the wrapped function itself declares
+            declared, agree = outcome_full(declared_thunk(g['w_orig'], g['inner'], fl), fns), 'ps'
+        elif base == 'auto_param':
+            fn, plain_target = g['w'], g['w']
+            codes = {g['w0'].__code__}
         else:
             K = g['K']
             raw = K.__dict__['w']
             code = getattr(raw, '__code__', None) or raw.__wrapped__.__code__
             codes = {code}
+            inst = K()
             if unbound:
-                inst = K()
                 fn = K.w
                 eff_o = progs.with_self(o)
             else:
-                fn = K().w
-                eff_o = o
+                fn = inst.w
             plain_target = fn
-        reported = retrieve(lambda: sigtools.signature(fn))
-        others = [retrieve(lambda: sigtools.signature(fn, auto=False))] if not unbound else []
+            if base == 'auto_method':
+                declared, agree = outcome_full(declared_thunk(inst.w, inst.inner, fl), fns), 'ps'
+        reported = outcome_full(lambda: sigtools.signature(fn), fns)
+        others = [retrieve(lambda: sigtools.signature(fn, auto=False))] if not (unbound or auto) else []
         if 'emulate' in base:
             others.append(retrieve(lambda: signatures.UpgradedSignature._upgrade(inspect.signature(fn), None, {})))
-        plain = retrieve(lambda: signatures.signature(plain_target))
+        plain = outcome_full(lambda: signatures.signature(plain_target), fns)
         names = [n for n in progs.named_names(eff_o, i) if n != 'self'] + [alggen.FOREIGN]
         maxpos = progs.npos(eff_o) + progs.npos(i) + 1 + fl['n']
-        if unbound:
-            # the caller passes the instance as first positional argument: shapes with np = 0 cannot reach the body, fine
-            pass
         bo, bi, other = progs.execute(fn, names, maxpos, codes, first=inst if unbound else None)
     finally:
         progs.drop_cache(fname)
     return {'tid': tid, 'op': 'fwdprog', 'o': eff_o, 'i': i, 'fl': fl, 'bound': False, 'reported': reported, 'others': others, 'plain': plain,
-            'allow_fallback': unbound, 'bad_outer': bo, 'bad_inner': bi, 'other_exc': other, 'placement': placement, 'maxpos': maxpos, 'kwpool': names,
+            'allow_fallback': unbound or auto, 'auto': auto, 'declared': declared, 'agree': agree,
+            'bad_outer': bo, 'bad_inner': bi, 'other_exc': other, 'placement': placement, 'maxpos': maxpos, 'kwpool': names,
             'case': {'o': o, 'i': i, 'fl': fl, 'placement': placement, 'src': src}}
 
 
